@@ -11,6 +11,7 @@ Rule       : for every class C of the event lattice: Need(C) ∪ {IN_DELETE_SELF
 from __future__ import annotations
 
 import ast
+import re
 
 from ..contract_inotify import classify
 from ..emit import GENERATORS, inotify_constants, inotify_emitter_table, inotify_flag_of_property
@@ -69,6 +70,13 @@ def run(ctx) -> None:
     from .c13 import watch_identity
 
     watch_identity(ctx, RID, P)
+    RPE = ctx.rule(
+        "C11/filter-applies-per-event",
+        "what the inotify emitter hands to queue_event does not depend on the filter (the filter is applied there, per event): two paths of "
+        "queue_events that differ only in a filter-dependent condition emit the same events, except for events of exactly the class the "
+        "condition tests",
+        floor=1,
+    )
     RN = ctx.rule("C11/unfiltered-mask", "no filter -> the reader's default mask (None is passed through)", floor=1)
 
     consts = inotify_constants(P)
@@ -107,6 +115,44 @@ def run(ctx) -> None:
         for k in emitted:
             need[info["full"]][k] = need[info["full"]].get(k, 0) | mask
             need_why.setdefault((info["full"], k), []).append(f"{kind}->{r.brief()[:80]}")
+    # ---------------- the filter is applied per event, not to groups of events
+    def fatoms(v):
+        return {a: t for a, t in v.items() if "_event_filter" in a or "event_filter" in a.split("(")[0]}
+
+    groups: dict[tuple, list] = {}
+    for r in rows:
+        fa = fatoms(r.val)
+        key = (r.mode.get("full"), tuple(sorted((a, t) for a, t in r.val.items() if a not in fa)))
+        groups.setdefault(key, []).append((fa, r))
+    nfd, okpe = 0, True
+    for key, members in groups.items():
+        if len(members) < 2 and not any(fa for fa, _ in members):
+            continue
+        for i, (fa1, r1) in enumerate(members):
+            for fa2, r2 in members[i + 1 :]:
+                if fa1 == fa2:
+                    continue
+                nfd += 1
+                b1, b2 = [e.brief() for e in r1.emissions], [e.brief() for e in r2.emissions]
+                if b1 == b2:
+                    continue
+                tested = set()
+                for a in set(fa1) | set(fa2):
+                    tested |= set(re.findall(r"issubclass\((\w+),", a)) | set(re.findall(r"isinstance\(\w+\((?:.*)\), (\w+)\)", a))
+                diff = [e for e in r1.emissions if e.brief() not in b2] + [e for e in r2.emissions if e.brief() not in b1]
+                bad = [e for e in diff if not (e.kind == "E" and e.cls in tested)]
+                if bad:
+                    okpe = False
+                    ctx.viol(
+                        RPE,
+                        f"queue_events under {sorted(set(fa1) | set(fa2))[0][:70]}",
+                        f"with the filter-dependent condition(s) {sorted(set(fa1) | set(fa2))} deciding differently, queue_events emits `{' ; '.join(b1)[:160]}` versus `{' ; '.join(b2)[:160]}`: "
+                        f"`{bad[0].brief()[:80]}` is withheld from queue_event on the strength of a test about another class — events the filter accepts (e.g. the File* events of a moved-in directory's contents under a filter that lacks the Dir* class) are never reported",
+                        f"{fi.module.relpath}:{getattr(bad[0].node, 'lineno', fi.node.lineno)}",
+                    )
+    if okpe:
+        ctx.ok(RPE, f"InotifyEmitter.queue_events: {len(rows)} paths, {nfd} pairs differing only in filter-dependent conditions, all emit alike", fi.loc)
+
     for full in (False, True):
         for k in concrete:
             if k not in need[full]:
@@ -243,57 +289,69 @@ def run(ctx) -> None:
     ok = True
     msg = ""
     nput = 0
+    params = [a.arg for a in qfi.node.args.args if a.arg != "self"]
+    evparam = params[0] if params else "event"
+    FILT = {"self._event_filter", "self.event_filter"}
+    WRAP = {"tuple", "list", "frozenset", "set", "sorted"}
+
+    def filter_term(t, binders) -> bool:
+        """the emitter's filter, possibly inside a container constructor, or a name bound by a comprehension / loop over it"""
+        while isinstance(t, ast.Call) and isinstance(t.func, ast.Name) and t.func.id in WRAP and len(t.args) == 1:
+            t = t.args[0]
+        if ast.unparse(t) in FILT:
+            return True
+        return False
+
+    def member_of_filter(t, binders) -> bool:
+        return isinstance(t, ast.Name) and t.id in binders and filter_term(binders[t.id], binders)
+
+    def instance_test(atom: str):
+        """None if the atom is no instance test; else (ok, why): isinstance(<event>, <filter tuple | member>) or the same spelled
+        issubclass(type(<event>), ...), anywhere inside the atom (e.g. under any(... for cls in filter))."""
+        try:
+            tree = ast.parse(atom.replace("$elem(", "_elem_("), mode="eval").body  # the engine's symbolic loop element
+        except SyntaxError:
+            return None
+        binders = {}
+        for n in ast.walk(tree):
+            if isinstance(n, ast.comprehension) and isinstance(n.target, ast.Name):
+                binders[n.target.id] = n.iter
+        tests = [n for n in ast.walk(tree) if isinstance(n, ast.Call) and isinstance(n.func, ast.Name) and n.func.id in ("isinstance", "issubclass") and len(n.args) == 2]
+        if not tests:
+            return None
+        for n in tests:
+            a0, a1 = n.args
+            if n.func.id == "isinstance":
+                first_ok = isinstance(a0, ast.Name) and a0.id == evparam
+            else:
+                first_ok = isinstance(a0, ast.Call) and isinstance(a0.func, ast.Name) and a0.func.id == "type" and len(a0.args) == 1 and isinstance(a0.args[0], ast.Name) and a0.args[0].id == evparam
+            elem_of_filter = isinstance(a1, ast.Call) and isinstance(a1.func, ast.Name) and a1.func.id == "_elem_" and len(a1.args) == 1 and filter_term(a1.args[0], binders)
+            second_ok = (isinstance(a1, ast.Call) and filter_term(a1, binders) and isinstance(a1.func, ast.Name) and a1.func.id == "tuple") or member_of_filter(a1, binders) or elem_of_filter
+            if not (first_ok and second_ok):
+                return False, f"instance test with the wrong roles: {ast.unparse(n)} (expected isinstance(<event>, <member of the filter>) or issubclass(type(<event>), <the filter>))"
+        return True, ""
+
+    shape = False
     for p in paths:
         puts = [e for e in p.evs if e.kind == "call" and e.extra.get("func", "").endswith("_event_queue.put") or (e.kind == "call" and e.extra.get("func", "").endswith("event_queue.put"))]
         nput += len(puts)
         v = p.val
         none_true = any(a.endswith("_event_filter is None") and t for a, t in v.items())
-        inst_true = any("isinstance(" in a and t for a, t in v.items())
-        inst_false = any("isinstance(" in a and not t for a, t in v.items())
+        inst = {}
+        for a, t in p.conds().items():
+            r = instance_test(a)
+            if r is None:
+                continue
+            if not r[0]:
+                ok, msg = False, r[1]
+            else:
+                shape = True
+                inst[a] = t
+        inst_true = any(inst.values())
         if puts and not (none_true or inst_true):
-            ok, msg = False, f"event enqueued on a path where neither 'filter is None' nor the isinstance test holds: {p.sig()}"
+            ok, msg = False, f"event enqueued on a path where neither 'filter is None' nor the instance test holds: {p.sig()}"
         if not puts and (none_true or inst_true):
             ok, msg = False, f"event dropped although the filter accepts it: {p.sig()}"
-    # the isinstance test must be over the event and the filter's members
-    # (argument roles are decided on the tree: the first argument is the event parameter, the second ranges over the filter)
-    params = [a.arg for a in qfi.node.args.args if a.arg != "self"]
-    evparam = params[0] if params else "event"
-    from ..flow import origins as _origins
-
-    def is_filter(expr, fn) -> bool:
-        """The expression is the emitter's filter (possibly through a local and a container constructor)."""
-        o = _origins(fn, expr)
-        return bool(o) and all(b == "self._event_filter" and set(w) <= {"tuple", "list", "frozenset", "set", "sorted"} for b, w in o)
-
-    shape = False
-    # the isinstance test is looked for in queue_event and in the predicate methods it calls on self; in a helper the event is the
-    # parameter that receives queue_event's event parameter
-    scopes = [(qfi.node, evparam)]
-    for hfi in P.self_closure("EventEmitter", "queue_event")[1:]:
-        hparams = [a.arg for a in hfi.node.args.args if a.arg != "self"]
-        for c in ast.walk(qfi.node):
-            if isinstance(c, ast.Call) and isinstance(c.func, ast.Attribute) and c.func.attr == hfi.name and dotted(c.func.value) == "self":
-                for hp, a in zip(hparams, c.args):
-                    if isinstance(a, ast.Name) and a.id == evparam:
-                        scopes.append((hfi.node, hp))
-    for scope, evname in scopes:
-        for n in ast.walk(scope):
-            if isinstance(n, ast.Call) and isinstance(n.func, ast.Name) and n.func.id == "isinstance" and len(n.args) == 2:
-                first_ok = isinstance(n.args[0], ast.Name) and n.args[0].id == evname
-                second = n.args[1]
-                second_ok = False
-                if isinstance(second, ast.Call) and ast.unparse(second.func) == "tuple" and second.args and is_filter(second.args[0], scope):
-                    second_ok = True
-                elif isinstance(second, ast.Name):
-                    for g in ast.walk(scope):
-                        if isinstance(g, ast.comprehension) and isinstance(g.target, ast.Name) and g.target.id == second.id and is_filter(g.iter, scope):
-                            second_ok = True
-                        if isinstance(g, ast.For) and isinstance(g.target, ast.Name) and g.target.id == second.id and is_filter(g.iter, scope):
-                            second_ok = True
-                if first_ok and second_ok:
-                    shape = True
-                else:
-                    ok, msg = False, f"isinstance test with the wrong roles: {ast.unparse(n)} (expected isinstance(<event>, <member of the filter>))"
     ctx.check(ok and shape and nput >= 1, RQ, "EventEmitter.queue_event", msg or "queue_event does not filter by isinstance over the filter's members", qfi.loc)
     ctx.count("functions", 4)
     ctx.assumptions += [
